@@ -476,3 +476,12 @@ def run_shard(shard, ctx):
 
 def replay(case, ctx):
     TABLE[case["kind"]][1](case, ctx)
+
+
+def waivers(counters):
+    w = set()
+    if counters.get("randperm_recorder_hits", 0) == 0:  # permutations drawn through another torch entry point: candidate-set oracle decides
+        w |= {"randperm_recorder_hits", "pcgrad_schedules_forced", "pcgrad_distinct_outputs_m3", "pcgrad_replayed_draws_m_gt_4", "pcgrad_m4_all_1296"}
+    if counters.get("rand_recorder_hits", 0) == 0:  # candidate-pair oracle decides
+        w |= {"rand_recorder_hits", "graddrop_draws_vs_purity_checked"}
+    return w
